@@ -3,7 +3,7 @@
 use crate::c01::witness_text;
 use crate::gram::{compare_tokens, load_str_spec, write};
 use a2lfile::{A2lFile, IfData};
-use vcommon::a2mlgen::{deviate, gen_def, gen_def_prefixed, gen_instance, render_def, Def};
+use vcommon::a2mlgen::{deviate, gen_def, gen_def_prefixed, gen_instance, render_def, AType, Def};
 use vcommon::doc::{Child, Doc, Elem, Tok, Val, TK};
 use vcommon::json::{clip, Json};
 use vcommon::layout::{render, LayoutCfg};
@@ -172,12 +172,13 @@ pub fn run(args: &Args, rec: &mut Recorder) {
         let other: Option<(Def, String)> = if source >= 3 {
             // the other definition must not be able to claim an instance of `def`: its tags and enum
             // items are disjoint by prefix, but a non-strict load also accepts a bare word where a
-            // char[n] string is expected (and writes it back quoted), so the other definition holds
-            // no strings
+            // char[n] string is expected (and writes it back quoted) and an integer where a float is
+            // expected (and writes it back as a float). So the root of the other definition is a
+            // tagged type: whatever it accepts starts with one of its own tags.
             let (d, t) = loop {
                 let d = gen_def_prefixed(rng, "OT_");
-                let t = render_def(&d, rng);
-                if !t.contains("char[") && !t.contains("char [") {
+                if matches!(d.root, AType::TaggedStruct { .. } | AType::TaggedUnion { .. }) {
+                    let t = render_def(&d, rng);
                     break (d, t);
                 }
             };
